@@ -29,7 +29,6 @@ Verdict(c) ==
   IF \E x \in ids : x \notin Ids(d) THEN "unknown-block"
   ELSE IF c.err THEN (IF after = d THEN "ok" ELSE "blocks-removed-by-failed-reload")
   ELSE IF RetentionOK(d, after, c.head, c.cfg) THEN "ok"
-  ELSE IF KF_C09_1(d, after, c.head, c.cfg) THEN "size-retention-counts-superseded"
   ELSE Why(d, after, c.head, c.cfg)
 
 Judge ==
